@@ -209,8 +209,8 @@ class Recorder:
                 raise ValueError(op)
         self.ev('end')
         if self.browser is not None:
-            await self.browser.async_cancel()
-        await self.host.aiozc.async_close()
+            await simnet.quiet(self.browser.async_cancel())
+        await simnet.quiet(self.host.aiozc.async_close())
 
     def run(self) -> dict:
         self.net.run(self.main(), limit_ms=self.sc.get('limit_ms', 72 * 3600 * 1000))
